@@ -4,7 +4,7 @@
 //   (a) direct calls of BOTH overloads of tapkee_internal::compute_shortest_distances_matrix on
 //       harness-supplied Neighbors (any digraph), a table-driven distance callback and Landmarks;
 //   (b) the bodies of IsomapImplementation::embed() / LandmarkIsomapImplementation::embed() as the
-//       library text has them, reached through the public API; inside those two headers (and only
+//       library text has them, constructed the way tapkee::embed() constructs them; inside those two headers (and only
 //       there) the identifiers `compute_shortest_distances_matrix(` and `eigendecomposition_via(`
 //       are wrapped by function-like macros that record arguments/results and forward to the real
 //       functions (the real definitions are included BEFORE the macros; #pragma once keeps them);
@@ -30,13 +30,20 @@
 #include <vector>
 #include <omp.h>
 
+// C04_WITH_ISO (harness-side switch): also compile observation points (b) and (c).  Without it the
+// translation unit contains only routines/isomap.hpp (10 s instead of 80 s per sanitizer build).
 #include <tapkee/defines.hpp>
+#ifdef C04_WITH_ISO
 #include <tapkee/methods/base.hpp>
 #include <tapkee/routines/eigendecomposition.hpp>
+#endif
 #include <tapkee/routines/isomap.hpp>
+#ifdef C04_WITH_ISO
 #include <tapkee/routines/landmarks.hpp>
 #include <tapkee/routines/multidimensional_scaling.hpp>
+#include <tapkee/utils/matrix.hpp> // methods/isomap.hpp uses centerMatrix without including it
 
+#endif
 namespace vh
 {
 using tapkee::DenseMatrix;
@@ -46,6 +53,7 @@ using tapkee::ScalarType;
 using tapkee::tapkee_internal::Landmarks;
 using tapkee::tapkee_internal::Neighbors;
 
+#ifdef C04_WITH_ISO
 struct capture_t
 {
     bool on = false;
@@ -95,7 +103,9 @@ template <class M> void cap_handed(const M& m)
 {
     if (cap().on) cap().handed.push_back(DenseMatrix(m));
 }
+#endif
 } // namespace vh
+#ifdef C04_WITH_ISO
 
 #define compute_shortest_distances_matrix(...)                                                                         \
     ::vh::cap_geo(__VA_ARGS__, compute_shortest_distances_matrix(__VA_ARGS__))
@@ -105,7 +115,12 @@ template <class M> void cap_handed(const M& m)
 #undef compute_shortest_distances_matrix
 #undef eigendecomposition_via
 
-#include <tapkee/tapkee.hpp>
+#include <tapkee/callbacks/dummy_callbacks.hpp>
+#include <tapkee/parameters/defaults.hpp>
+#endif
+// NOT <tapkee/tapkee.hpp>: the public dispatcher instantiates all twenty methods for the callback
+// type (3.5 min per sanitizer build); the two implementations are constructed exactly as
+// tapkee::embed() + DynamicImplementation::embedUsing() construct them (run_iso below).
 
 using namespace tapkee;
 using namespace vh;
@@ -229,6 +244,7 @@ static void run_sp(int k, std::istringstream& is)
     }
 }
 
+#ifdef C04_WITH_ISO
 static void run_iso(int k, std::istringstream& is)
 {
     int threads, kk, d, N;
@@ -255,16 +271,31 @@ static void run_iso(int k, std::istringstream& is)
     TapkeeOutput out;
     try
     {
+        typedef std::vector<IndexType>::const_iterator It;
+        typedef dummy_kernel_callback<IndexType> KCB;
+        typedef dummy_features_callback<IndexType> FCB;
+        typedef tapkee_internal::ImplementationBase<It, KCB, table_callback, FCB> Base;
+        // the statements of tapkee::embed() (embed.hpp) and DynamicImplementation::embedUsing (methods.hpp)
+        stichwort::ParametersSet parameters =
+            (num_neighbors = kk, target_dimension = d, neighbors_method = nmeth, eigen_method = emeth,
+             landmark_ratio = ratio);
+        parameters.check();
+        parameters.merge(tapkee_internal::defaults);
+        tapkee_internal::Context context(nullptr, nullptr);
+        It b = idx.begin(), e = idx.end();
+        Base base(b, e, KCB(), cb, FCB(), parameters, context);
         if (meth == "liso")
-            out = tapkee::with((method = LandmarkIsomap, num_neighbors = kk, target_dimension = d,
-                                neighbors_method = nmeth, eigen_method = emeth, landmark_ratio = ratio))
-                      .withDistance(cb)
-                      .embedUsing(idx);
+        {
+            tapkee_internal::LandmarkIsomapImplementation<It, KCB, table_callback, FCB> implementation(base);
+            implementation.validate();
+            out = implementation.embed();
+        }
         else
-            out = tapkee::with((method = Isomap, num_neighbors = kk, target_dimension = d, neighbors_method = nmeth,
-                                eigen_method = emeth))
-                      .withDistance(cb)
-                      .embedUsing(idx);
+        {
+            tapkee_internal::IsomapImplementation<It, KCB, table_callback, FCB> implementation(base);
+            implementation.validate();
+            out = implementation.embed();
+        }
     }
     catch (...)
     {
@@ -323,6 +354,7 @@ static void run_eig(int k, std::istringstream& is)
     print_matrix("vals", vals);
     print_matrix("vecs", es.eigenvectors());
 }
+#endif
 
 int main()
 {
@@ -339,10 +371,12 @@ int main()
         {
             if (cmd == "SP")
                 run_sp(k, is);
+#ifdef C04_WITH_ISO
             else if (cmd == "ISO")
                 run_iso(k, is);
             else if (cmd == "EIG")
                 run_eig(k, is);
+#endif
             else
                 bad(k, "command");
         }
